@@ -14,6 +14,11 @@ chk("C09",
     "Trusted: TLC, the ~25-line table-fold oracle in harness/drivers/utf8_drv.py, cffi/gcc rebuild. W-method completeness assumes a deterministic implementation with <=9+k states.",
     "TLA+ spec (Utf8.tla) model-checked with TLC; W-method conformance from the exported transition relation; TLC batch trace validation of recorded validate() calls", "5/C09")
 
+chk("C15",
+    "TLC checks RunningXor/PointerCounts/Involution of spec/XorMask.tla over all chunkings of small payloads; every masker implementation (pure-Python simple/shifted/factory; NVX scalar/SSE2 through the wrapper and through lib.nvx_xormask_process at all 16 buffer alignments, rebuilt from /repo) is driven over all lengths 0..300 x offsets 0..3 x alignments, splits at every (quick: boundary) position, random 3-way splits, reset, involution and 64KiB-1MiB payloads; TLC (XorMaskTrace.tla) recomputes every output octet from inputs defined in the spec.",
+    "Trusted: TLC and CommunityModules Bitwise, cffi/gcc rebuild. Alignment reached through the cffi lib call (the wrapper always allocates an aligned buffer).",
+    "TLA+ spec (XorMask.tla) model-checked with TLC; TLC batch trace validation recomputing every XOR of recorded process() calls for all implementations", "5/C15")
+
 NA_ALL = ["C%02d" % i for i in range(1, 21)]
 for p in NA_ALL:
     if p not in CHECKS:
